@@ -100,6 +100,43 @@ def colsOf (m : MetricSpec γ) : List String :=
 def ownKwargs (m : MetricSpec γ) (idx : List Nat) : List (String × List Rat) :=
   m.params.filterMap (fun p => p.2.map (fun v => (p.1, idx.map (fun j => v.getD j 0))))
 
+/-! ### the public accessors `by_group` / `overall`: which pandas object the user gets -/
+
+inductive ResultType where
+  | dataFrame
+  | series
+  | scalar
+  | invalid     -- the indexing operation does not apply to that object
+deriving Repr, DecidableEq
+
+def ResultType.fmt : ResultType → String
+  | .dataFrame => "DataFrame"
+  | .series => "Series"
+  | .scalar => "scalar"
+  | .invalid => "invalid"
+
+/-- pandas type of `DisaggregatedResult.by_group` / `.overall`: a DataFrame (index tuples x metrics), except that
+    `overall` without control features is the Series `apply_to_dataframe` returns (metric name -> value) -/
+def underlyingType (isOverall hasControl : Bool) : ResultType :=
+  if isOverall && !hasControl then .series else .dataFrame
+
+/-- `.iloc[:, 0]` / `.iloc[0]` -/
+def applyExtract : Extract → ResultType → ResultType
+  | .whole, t => t
+  | .column0, .dataFrame => .series
+  | .entry0, .series => .scalar
+  | .entry0, .dataFrame => .series
+  | _, _ => .invalid
+
+/-- type of `MetricFrame.by_group` (`bare` = a single callable was supplied; `self.control_levels` is truthy iff
+    control features were given) -/
+def byGroupType (bare hasControl : Bool) : ResultType :=
+  applyExtract (FrameSrc.extract_result bare hasControl FrameSrc.by_group_no_control_levels) (underlyingType false hasControl)
+
+/-- type of `MetricFrame.overall` -/
+def overallType (bare hasControl : Bool) : ResultType :=
+  applyExtract (FrameSrc.extract_result bare hasControl FrameSrc.overall_no_control_levels) (underlyingType true hasControl)
+
 /-! ### driver glue: a dict of pool metrics -/
 
 open MetricPool in
@@ -171,7 +208,9 @@ def handle (toks : List String) : Option String :=
     let per := specs.map (fun s =>
       Proto.fmtStr s.name ++ " " ++ fmtOptCells ((column s.name bg).map (·.2)) ++ " " ++
         fmtOptCells ((column s.name ov).map (·.2)))
-    pure (" ".intercalate ([MetricPool.fmtKeys (bg.map (·.1)), MetricPool.fmtKeys (ov.map (·.1))] ++ per))
+    let bare := specs.all (fun s => s.colPrefix.isNone)
+    pure (" ".intercalate ([MetricPool.fmtKeys (bg.map (·.1)), MetricPool.fmtKeys (ov.map (·.1))] ++ per ++
+      [(byGroupType bare (decide (0 < ncf))).fmt, (overallType bare (decide (0 < ncf))).fmt]))
   | _ => none
 
 end FrameMulti
